@@ -1324,3 +1324,27 @@ addresses: [192.0.2.53/24]
         network.prefixlen
     );
 }
+
+/// Verification hook (built only with `--cfg erbium_verif`): the result of the policy walk that
+/// `handle_discover`/`handle_request` perform before allocating -- whether any policy applied,
+/// the address set the walk ended with, and the three-state option table.
+#[cfg(erbium_verif)]
+#[allow(clippy::type_complexity)]
+pub fn verif_policy_walk(
+    conf: &super::config::Config,
+    req: &DHCPRequest,
+) -> (
+    bool,
+    Option<pool::PoolAddresses>,
+    Vec<(dhcppkt::DhcpOption, Option<Vec<u8>>)>,
+) {
+    let base = [build_default_config(conf, req)];
+    let mut response: Response = Default::default();
+    let base_policy = apply_policies(req, &base, &mut response);
+    let conf_policy = apply_policies(req, &conf.dhcp.policies, &mut response);
+    (
+        base_policy || conf_policy,
+        response.address,
+        response.options.option.into_iter().collect(),
+    )
+}
